@@ -66,10 +66,15 @@ func main() {
 		}
 	}
 	fset = pSlog.Fset
+	if abs, err := filepath.Abs(*repo); err == nil {
+		repoRoot = abs
+	}
 	os.MkdirAll(*out, 0o755)
 	writeIfChanged(filepath.Join(*out, "Tables.v"), genTables())
 	writeIfChanged(filepath.Join(*out, "EntryPoints.v"), genEntryPoints())
-	writeIfChanged(filepath.Join(*out, "Decisions.v"), genDecisions())
+	for _, gf := range genFiles {
+		writeIfChanged(filepath.Join(*out, gf[0]+".v"), genDecisions(gf[0], gf[1]))
+	}
 	writeIfChanged(filepath.Join(*out, "PanicSites.v"), genPanicSites())
 	writeIfChanged(filepath.Join(*out, "CallerSites.v"), genCallerSites())
 	writeIfChanged(filepath.Join(*out, "PrintCtxFields.v"), genPrintCtxFields())
